@@ -219,7 +219,7 @@ Definition check_case (c : case) : bool :=
       Nat.eqb n' n && list_bool_eqb bits (mask_of (8 * bv_len n) (c_R c)) &&
       N.eqb (l_len1 L) 116 && N.eqb (g_n (l_vc1 L)) 2 && N.eqb (g_n (l_vc2 L)) (N.of_nat (2 + hidden)) &&
       Nat.eqb (length (g_trail (l_vc1 L))) 0 && Nat.eqb (length (g_trail (l_vc2 L))) 0 &&
-      layout_canonical Fixed L &&
+      layout_canonical Fixed L && points_ok L &&
       list_N_eqb (layout_bytes L) rest
   | _, None => false
   end &&
@@ -241,7 +241,7 @@ Definition check_case (c : case) : bool :=
                       | PErr => VReject
                       | PPanic => VPanic
                       | POk L' =>
-                          if negb (layout_canonical Fixed L') then VReject else
+                          if negb (layout_canonical Fixed L' && points_ok L') then VReject else
                           let pf' := {|
                             p_count := n'; p_mask := bits';
                             p_aprime := bump (negb (list_N_eqb (l_aprime L) (l_aprime L'))) (p_aprime pf);
